@@ -29,8 +29,8 @@ RULE = (
     "query digest)."
 )
 TIERS = {
-    "quick": {"runs": 200, "budget_s": 45, "min_runs": 25, "run_timeout_s": 240},
-    "thorough": {"runs": 20000, "budget_s": 780, "min_runs": 500, "run_timeout_s": 600},
+    "quick": {"runs": 200, "budget_s": 45, "min_runs": 4, "run_timeout_s": 240},
+    "thorough": {"runs": 20000, "budget_s": 780, "min_runs": 40, "run_timeout_s": 600},
 }
 COMPONENTS_REAL = [
     "sqlfluff discovery.paths_from_path/_iter_files_in_path/_process_exact_path/_check_ignore_specs, ignore loaders, load_config_file_as_dict cache, Linter.lint_paths file selection",
